@@ -129,6 +129,7 @@ type Run struct {
 	consMu  sync.Mutex
 	emptied map[string]bool // "topic/channel" emptied or deleted during the run
 	draining int32
+	exiting  int32 // graceful shutdown requested (restart mode): publishers and consumers lose their connections
 }
 
 func (r *Run) failf(f string, a ...interface{}) {
@@ -209,7 +210,7 @@ func (r *Run) publisher(p int, seed int64, count int, startIdx int) {
 	}
 	i := startIdx
 	end := startIdx + count
-	for i < end {
+	for i < end && !cn.isClosed() {
 		topic := r.sc.Topics[rng.Intn(len(r.sc.Topics))]
 		kind := rng.Intn(10)
 		switch {
@@ -313,7 +314,9 @@ func (r *Run) record(key, topic string, body []byte, d int, via string) *pubRec 
 func (r *Run) ack(cn *Conn, recs []*pubRec) {
 	f, _, err := cn.expectResponse(30 * time.Second)
 	if err != nil {
-		r.inconclusive("publish response: %v", err)
+		if atomic.LoadInt32(&r.exiting) == 0 {
+			r.inconclusive("publish response: %v", err)
+		}
 		return
 	}
 	if f.Type == 0 && string(f.Data) == "OK" {
